@@ -9,6 +9,7 @@ Run: lake env lean --run FaxVerif/Cpp/Driver.lean
 import FaxVerif.Cpp.Json
 import FaxVerif.Cpp.Check
 import FaxVerif.Gen.Render
+import FaxVerif.C03.Spec
 open Lean FaxVerif.Cpp FaxVerif.Linq FaxVerif.Gen
 
 def rowsJson (rows : List (List (Val Float))) : Json :=
@@ -34,7 +35,16 @@ def handleRun (j : Json) : Except String Json := do
     | none => Json.null
     | some q => Json.arr (evs.map fun ev => resJson (denoteRows { N := floatNum, ev := ev, collTypes := cts } q)).toArray
   let job := resJson (runJob P floatNum evs)
-  pure (Json.mkObj [("exec", Json.arr execs.toArray), ("denote", dens), ("job", job),
+  let schema := match j.getObjVal? "schema" with
+    | .ok sj => match (do
+          let names ← (← jarr sj "names").mapM (·.getStr?)
+          let types ← (← jarr sj "types").mapM (·.getStr?)
+          let fill ← jstr sj "fill"
+          pure (FaxVerif.C03.SchemaOk P names types fill) : Except String Bool) with
+      | .ok b => Json.bool b
+      | .error e => Json.str e
+    | .error _ => Json.null
+  pure (Json.mkObj [("exec", Json.arr execs.toArray), ("denote", dens), ("job", job), ("schema_ok", schema),
     ("wf", Json.bool (WellFormed P)), ("eventlocal", Json.bool (EventLocal P)), ("unique", Json.bool (UniqueNames P))])
 
 /-- {"op":"compile","backend":b,"colls":[{"name","type","elem"}],"fq":FQ,"events":[..]}
